@@ -7,6 +7,7 @@ toolchain go1.23.5
 require (
 	github.com/LiskHQ/lisk-engine v0.0.0
 	github.com/cockroachdb/pebble v0.0.0-20221021145029-f34af25a0187
+	github.com/libp2p/go-libp2p v0.32.2
 	golang.org/x/text v0.14.0
 	pgregory.net/rapid v1.3.0
 )
@@ -63,7 +64,6 @@ require (
 	github.com/libp2p/go-buffer-pool v0.1.0 // indirect
 	github.com/libp2p/go-cidranger v1.1.0 // indirect
 	github.com/libp2p/go-flow-metrics v0.1.0 // indirect
-	github.com/libp2p/go-libp2p v0.32.2 // indirect
 	github.com/libp2p/go-libp2p-asn-util v0.3.0 // indirect
 	github.com/libp2p/go-libp2p-pubsub v0.10.0 // indirect
 	github.com/libp2p/go-msgio v0.3.0 // indirect
